@@ -4,6 +4,8 @@
 // TODO:
 // * Make Circ typed?
 
+#[cfg(feature = "verif_hooks")]
+use crate::verif::shim as std;
 use std::collections::BTreeMap;
 use std::os::fd::AsRawFd;
 use std::sync::{Arc, Condvar, Mutex};
@@ -217,6 +219,8 @@ pub struct BufferReader<T: Copy> {
 impl<T: Copy> BufferReader<T> {
     #[must_use]
     fn new(parent: Arc<Buffer<T>>, start: usize, end: usize) -> Self {
+        #[cfg(feature = "verif_hooks")]
+        parent.verif_window(crate::verif::WindowKind::Read, true, start, end);
         Self { parent, start, end }
     }
 
@@ -233,6 +237,9 @@ impl<T: Copy> BufferReader<T> {
 
     /// We're done with the buffer. Consume `n` samples.
     pub fn consume(self, n: usize) {
+        #[cfg(feature = "verif_hooks")]
+        self.parent
+            .verif_window(crate::verif::WindowKind::Read, false, self.start, self.end);
         self.parent.consume(n);
     }
 
@@ -268,6 +275,8 @@ impl<T: Copy> BufferWriter<T> {
     #[must_use]
     fn new(parent: Arc<Buffer<T>>, start: usize, end: usize) -> BufferWriter<T> {
         assert!(end >= start);
+        #[cfg(feature = "verif_hooks")]
+        parent.verif_window(crate::verif::WindowKind::Write, true, start, end);
         Self { parent, start, end }
     }
 
@@ -295,6 +304,9 @@ impl<T: Copy> BufferWriter<T> {
     /// we're done. Also here are the tags, with positions relative to
     /// start of buffer.
     pub fn produce(self, n: usize, tags: &[Tag]) {
+        #[cfg(feature = "verif_hooks")]
+        self.parent
+            .verif_window(crate::verif::WindowKind::Write, false, self.start, self.end);
         self.parent.produce(n, tags);
     }
 
@@ -308,6 +320,53 @@ impl<T: Copy> BufferWriter<T> {
     #[must_use]
     pub fn is_empty(&self) -> bool {
         self.end == self.start
+    }
+}
+
+#[cfg(feature = "verif_hooks")]
+impl<T: Copy> Drop for BufferReader<T> {
+    fn drop(&mut self) {
+        self.parent
+            .verif_window(crate::verif::WindowKind::Read, false, self.start, self.end);
+    }
+}
+
+#[cfg(feature = "verif_hooks")]
+impl<T: Copy> Drop for BufferWriter<T> {
+    fn drop(&mut self) {
+        self.parent
+            .verif_window(crate::verif::WindowKind::Write, false, self.start, self.end);
+    }
+}
+
+#[cfg(feature = "verif_hooks")]
+impl<T> Buffer<T> {
+    /// Identity of this buffer, for verification hooks.
+    #[must_use]
+    pub fn verif_id(&self) -> usize {
+        Arc::as_ptr(&self.state) as *const () as usize
+    }
+
+    fn verif_window(&self, kind: crate::verif::WindowKind, open: bool, start: usize, end: usize) {
+        crate::verif::window(self.verif_id(), kind, open, start, end, self.total_size());
+    }
+
+    /// Move the read/write position of an *empty* buffer, so that tests can
+    /// start at any ring offset.
+    pub fn verif_preroll(&self, pos: usize) {
+        let mut s = self.state.0.lock().unwrap();
+        assert_eq!(s.used, 0, "verif_preroll on a non-empty buffer");
+        assert!(s.tags.is_empty());
+        let pos = pos % s.capacity();
+        s.rpos = pos;
+        s.wpos = pos;
+    }
+
+    /// Current (read position, write position, used), in samples.
+    #[must_use]
+    pub fn verif_positions(&self) -> (usize, usize, usize) {
+        let s = self.state.0.lock().unwrap();
+        (s.rpos, s.wpos, s.used)
     }
 }
 
